@@ -413,6 +413,31 @@ def e_failed_action_ends_turn(ctx):
                   % (first_line(leak[0].ast, 60) if leak else "?"), line=(leak[0].line if leak else l.lineno))
 
 
+def side_label(ifnode):
+    """edge label of the branch of `ifnode` that handles the marker (the body: the test is written positively)"""
+    return True
+
+
+def _always_cut(cfg, start, cut_nodes, ifnode):
+    """from `start` (first node of the branch) every way out of the branch passes a truncation"""
+    inside = set()
+    for st in ifnode.body:
+        for x in ast.walk(st):
+            n = cfg.by_ast.get(id(x))
+            if n is not None:
+                inside.add(n)
+    seen, stack = set(), [start]
+    while stack:
+        x = stack.pop()
+        if x in seen or x in cut_nodes:
+            continue
+        if x not in inside:
+            return False       # left the branch without a truncation
+        seen.add(x)
+        stack.extend(m for m, _ in x.succ)
+    return True
+
+
 def e_hide_prev_turn(ctx):
     """A failed action answers with the internal-error message and `hide_prev_turn`; the next turn
     is clean only if that marker removes exactly the failed turn from the replayed history."""
@@ -432,9 +457,24 @@ def e_hide_prev_turn(ctx):
                     break
     ctx.floor("C03.e.hide-prev-turn", FL1, "hide_prev_turn handling in compute_next_steps", len(hides), 1)
     prov = _index_provenance(fn)
+    cfg_h = CFG(fn)
     for h in hides:
         cuts = [a for s in h.body for a in ast.walk(s) if isinstance(a, ast.Assign) and isinstance(a.value, ast.Subscript) and isinstance(a.value.slice, ast.Slice)
                 and isinstance(a.targets[0], ast.Name) and src(a.value.value) == a.targets[0].id]
+        # the other spelling of a truncation: `del L[i:]`
+        dels = [d for s in h.body for d in ast.walk(s) if isinstance(d, ast.Delete) and any(isinstance(t_, ast.Subscript) and isinstance(t_.slice, ast.Slice) and t_.slice.upper is None
+                                                                                             for t_ in d.targets)]
+        # the marker ALWAYS removes a turn: every path through the branch passes a truncation (a test that skips it for the index 0 keeps a failed FIRST turn in the history)
+        tnode = cfg_h.node_of(h.test)
+        first = [m for m, lab in tnode.succ if lab is side_label(h)] if tnode is not None else []
+        cut_nodes = [cfg_h.node_of(x) for x in cuts + dels]
+        after = [m for m, lab in tnode.succ if lab is not side_label(h)] if tnode is not None else []
+        always = bool(cut_nodes) and bool(first) and all(_always_cut(cfg_h, f_, cut_nodes, h) for f_ in first)
+        ctx.check("C03.e.hide-prev-turn", FL1, fn.name, "the marker always removes a turn", always,
+                  "every path through the hide_prev_turn branch truncates the replayed history" if always else
+                  ("no truncation of the replayed history on hide_prev_turn" if not cut_nodes else
+                   "the truncation on hide_prev_turn can be skipped (e.g. when the hidden turn starts at index 0): a failed FIRST turn stays in the history, its pending "
+                   "`inform internal error` intent takes over the next turn and the input rails are skipped for it"), line=h.lineno)
         ok = bool(cuts)
         msg = "no truncation of the replayed history on hide_prev_turn"
         for c in cuts:
